@@ -108,7 +108,7 @@ def _archive(D):
     ctx = core.Ctx(PID, D, sim)
     ctx.probe('archive_family')
     m = 1 + D.dec('cfg', 'm', 3)
-    k = 1 + D.dec('cfg', 'k', 16)
+    k = 1 + D.size('cfg', 'k', 16)
     span = (3, 5, 9)[D.dec('cfg', 'span', 3)]
     cmpk = D.dec('cfg', 'cmp', 3)
     use_eps = cmpk >= 1
